@@ -553,7 +553,7 @@ func c06Float(c *eng.Ctx, r *eng.Report, sites []moneySite) {
 // execution bills.
 func c06PrecheckGas(c *eng.Ctx, r *eng.Report) {
 	const rule = "R6.7"
-	r.Min(rule, 1)
+	r.Min(rule, 2)
 	fn := c.Func("executor", "preCheckContractFee")
 	if !r.Anchor(fn != nil, rule, "executor.preCheckContractFee") {
 		return
@@ -570,6 +570,18 @@ func c06PrecheckGas(c *eng.Ctx, r *eng.Report) {
 			bad = eng.Desc(v)
 		}
 	}
+	// what the balance is compared with is the sum of both debits the transaction can cause
+	sum := false
+	for _, s := range eng.Sites(fn) {
+		if s.Name() != "(*math/big.Int).Cmp" {
+			continue
+		}
+		d := eng.Desc(s.Common().Args[1]) + "|" + eng.Desc(s.Common().Args[0])
+		if strings.Contains(d, "big.Int).Add(") && strings.Contains(d, "TransferValue") && strings.Contains(d, "big.Int).Mul(") {
+			sum = true
+		}
+	}
+	r.Check(sum, rule, "precheck:fee-plus-value", c.Pos(fn.Pos()), "the balance is compared with gasLimit × price + transferValue", "preCheckContractFee no longer compares the balance with the sum of the gas fee and the transferred value: a sender who can afford either but not both passes, the value transfer empties the account, the fee debit is silently refused and FeeAccount is still credited — the total supply grows (1.001 RPG held, value 1 RPG, gas limit 1000000: +630000000000000 wei)")
 	r.Check(bad == "" && n >= 1, rule, "precheck:gas-limit-uncapped", c.Pos(fn.Pos()), "the priced gas limit is raw.GasLimit as decoded", "preCheckContractFee prices "+bad+" instead of the gas limit the transaction asked for: where this figure is below what execution may run and bill (execution caps at 900M gas since proposal 026), a successful call that burns more than the sender holds has its debit silently refused while FeeAccount is credited the full fee — tokens are created")
 }
 
